@@ -547,6 +547,41 @@ var Corpus = []Scenario{
 		cmd("canary-validate")
 		x.D.Converge(40)
 	}},
+	{"two-eds-same-name-two-namespaces", []string{"C12", "C14", "C02", "C13"}, func(x Scn) {
+		k2 := "ns2/foo"
+		x.D.Strategy[Key] = BaseStrategy()
+		x.D.Strategy[k2] = CanaryStrategy("1")
+		for i := 1; i <= 3; i++ {
+			x.do(Action{Op: "NodeAdd", N: "n" + strconv.Itoa(i), V: "A,B,C", W: "c;z=z1"})
+		}
+		x.do(Action{Op: "CreateEDS", Key: Key, T: "A"})
+		x.do(Action{Op: "CreateEDS", Key: k2, T: "A"})
+		x.D.Converge(15)
+		x.do(Action{Op: "SetTemplate", Key: k2, T: "B"})
+		x.Rounds(3)
+		x.Template("C")
+		x.Rounds(4)
+		x.do(Action{Op: "ForeignPod", Key: k2, N: "n1", V: "dup"})
+		x.do(Action{Op: "PodTemplateReconcile", Key: k2})
+		x.do(Action{Op: "PodTemplateReconcile", Key: Key})
+		x.D.Converge(60)
+	}},
+	{"two-eds-one-namespace", []string{"C12", "C14", "C02"}, func(x Scn) {
+		k2 := "ns1/bar"
+		x.D.Strategy[Key] = BaseStrategy()
+		x.D.Strategy[k2] = BaseStrategy()
+		for i := 1; i <= 3; i++ {
+			x.do(Action{Op: "NodeAdd", N: "n" + strconv.Itoa(i), V: "A,B,C", W: "c;z=z1"})
+		}
+		x.do(Action{Op: "CreateEDS", Key: Key, T: "A"})
+		x.do(Action{Op: "CreateEDS", Key: k2, T: "B"})
+		x.D.Converge(15)
+		x.do(Action{Op: "SetTemplate", Key: k2, T: "A"})
+		x.Template("B")
+		x.Rounds(3)
+		x.do(Action{Op: "NodeRemove", N: "n2"})
+		x.D.Converge(60)
+	}},
 	{"migration-old-daemonset", []string{"C03", "C12", "C02", "C01"}, func(x Scn) {
 		sc := BaseStrategy()
 		x.D.Strategy[Key] = sc
